@@ -462,8 +462,8 @@ class _ScopeContext:
                 gen.send(False)
 
                 for d in (asts[::-1] if back else asts):
-                    if d:  # kw_defaults can have None
-                        yield from self._walk_Comp_part(d.f, None, True)
+                    if d and (df := d.f):  # kw_defaults can have None, and a default may have been removed or replaced during a previous yield
+                        yield from self._walk_Comp_part(df, None, True)
 
 _SCOPE_WALK_FUNCS = {  # the boolean indicates whether it is a normal function or a generator
     FunctionDef:      (_ScopeContext.stack_funcdef, False),
